@@ -288,6 +288,8 @@ impl NoGoodStore {
             return ClosureResult::NoUpdate;
         }
         while update {
+            #[cfg(adf_obdd_verif)]
+            crate::verif::tick();
             match self.conclusions(&result.as_slice().into()) {
                 Some(val) => result = val.update_term_vec(&result, &mut update),
                 None => return ClosureResult::Inconsistent,
